@@ -121,6 +121,7 @@ fn main() {
         "dev-idioms" => dev::idioms(&env, &rest),
         "dev-find" => dev::find(&env, &rest),
         "dev-load" => dev::load_file(&env, &rest),
+        "dev-case" => dev::case_file(&env, &rest),
         "dev-fuzz" => fuzz::dev(&env, &rest),
         "C01" => c01::run(&env),
         "C04" => c04::run(&env),
